@@ -93,3 +93,30 @@ Proof.
   rewrite E. f_equal. f_equal.
   apply (equal_m_correct c fx x fuel w p q b w' va vb Hs (conj F1 (conj F2 F3)) Ha Hb E Da Db).
 Qed.
+
+(* non-vacuity: the root of [eq_deep_msg] (struct -> composite list -> element with a null
+   pointer) denotes a value, is well formed, hence traversable; compared with itself under
+   depth limit 4 and a budget of 1000, Equal answers true and charges 16 bytes (the list
+   pointer is dereferenced once per side). *)
+From CV Require Import Value.VDec Value.VDecProofs.
+Example equal_total_example :
+  let c := mkCfg 1000 4 true true in
+  let fx := mkEFix true true (mkFix true true true) in
+  let x := mkEC eq_deep_msg [] eq_deep_msg [] true in
+  exists p rl0 v ca,
+    root c eq_deep_msg 1000 = (Ok p, rl0) /\ wf_ptr eq_deep_msg p /\
+    den true eq_deep_msg 0 [] p v /\ trav true eq_deep_msg p (Z.of_nat (vdepth v)) ca /\
+    equal_m 6 c fx x (rl0, 0) p p = (EOk true, (rl0 - 16, 0)).
+Proof.
+  intros c fx x.
+  assert (Hm : msg_ok eq_deep_msg) by (repeat constructor; cbn; try lia; unfold maxSegmentSize; lia).
+  destruct (root c eq_deep_msg 1000) as [r rl0] eqn:E. vm_compute in E. inversion E; subst r rl0. clear E.
+  match goal with |- exists p, _ => eexists; eexists end.
+  destruct (vdec 10 1000 eq_deep_msg 0 []
+              (mkPtr true 0 8 0 (mkOS 0 1) 3 KStruct false false false)) as [v|] eqn:Ev; [|vm_compute in Ev; discriminate].
+  pose proof (vdec_den _ _ _ _ _ _ _ Ev) as D.
+  destruct (den_trav true _ 0 [] Hm (vdepth v) v (le_n _) _ D) as (ca & T).
+  exists v, ca. split; [reflexivity|]. split.
+  { intros _. split; [vm_compute; split; congruence|]. vm_compute. repeat split; congruence. }
+  split; [exact D|]. split; [exact T|]. vm_compute. reflexivity.
+Qed.
